@@ -44,3 +44,43 @@ def run_jobs(ctx, jobs, jobs_parallel=12, timeout=300):
         if 'harness_error' in o:
             raise MachineryError('subprocess job failed:\n' + o['harness_error'])
     return outs
+
+
+def _launch_stage(args):
+    job, env_extra, timeout = args
+    d = tempfile.mkdtemp(prefix='sjob_', dir=job['workdir'])
+    jp, op = os.path.join(d, 'job.json'), os.path.join(d, 'out.json')
+    job = dict(job)
+    job.setdefault('trace_dir', os.path.join(d, 'hooks'))
+    json.dump(job, open(jp, 'w'))
+    env = dict(os.environ)
+    env['PYTHONPATH'] = ROOT + ':' + env.get('PYTHONPATH', '')
+    env['CELL_TYPE_MAPPER_VERIF'] = '1'
+    env.update(env_extra or {})
+    cmd = ['/venv/bin/python', '-W', 'ignore', '-m', 'harness.stagejob', jp, op]
+    try:
+        pr = subprocess.run(cmd, env=env, capture_output=True, text=True, timeout=timeout, cwd=ROOT)
+    except subprocess.TimeoutExpired:
+        return {'harness_error': f'timeout after {timeout}s: stage {job.get("stage")}'}
+    if not os.path.exists(op):
+        return {'harness_error': f'stagejob produced no output: rc={pr.returncode}\n{pr.stderr[-2000:]}'}
+    out = json.load(open(op))
+    out['job_dir'] = d
+    out['trace_dir'] = job['trace_dir']
+    return out
+
+
+def run_stage_jobs(ctx, jobs, jobs_parallel=10, timeout=300):
+    """jobs: list of dict(job={stage, args, plan,...}, env={...}); returns outputs in order"""
+    from harness.tlc import MachineryError
+    args = []
+    for j in jobs:
+        job = dict(j['job'])
+        job.setdefault('workdir', str(ctx.scratch))
+        args.append((job, j.get('env'), timeout))
+    with cf.ThreadPoolExecutor(max_workers=jobs_parallel) as ex:
+        outs = list(ex.map(_launch_stage, args))
+    for o in outs:
+        if 'harness_error' in o:
+            raise MachineryError('stage job failed to run:\n' + o['harness_error'])
+    return outs
